@@ -180,6 +180,42 @@ func (e *c17Env) controller(finished chan<- struct{}) {
 		}
 		seen[k] = true
 		e.open(k)
+		// Every runner is started independently of the others, so the execution for call k is
+		// at its gate or about to be.  A call that is never executed at all (an implementation
+		// that drops calls) must not hold the script — and with it every other call — forever:
+		// its arrival is awaited for a generous time only, and once one call of this process
+		// has failed to arrive (a violation by then: the execution counts differ) not long.
+		if atomic.LoadInt32(&e.count[k]) == 0 {
+			limit := 10 * time.Second
+			if atomic.LoadInt32(&c17NeverArrived) > 0 {
+				limit = 300 * time.Millisecond
+			}
+			timer := time.NewTimer(limit)
+			completed := false
+		wait:
+			for atomic.LoadInt32(&e.count[k]) == 0 {
+				select {
+				case <-e.arrSig:
+				case <-e.done[k]: // completed without reaching its function (c17Env.returned)
+					completed = true
+					break wait
+				case <-timer.C:
+					break wait
+				case <-e.abort:
+					timer.Stop()
+					e.openAll()
+					return
+				}
+			}
+			timer.Stop()
+			if completed {
+				continue
+			}
+			if atomic.LoadInt32(&e.count[k]) == 0 {
+				atomic.AddInt32(&c17NeverArrived, 1)
+				continue
+			}
+		}
 		select {
 		case <-e.done[k]:
 		case <-e.abort:
@@ -189,6 +225,10 @@ func (e *c17Env) controller(finished chan<- struct{}) {
 	}
 	e.openAll()
 }
+
+// c17NeverArrived counts the calls (of all cases of this process) whose execution never
+// reached its gate.
+var c17NeverArrived int32
 
 func c17Pos(args string) int {
 	i := strings.IndexByte(args, '|')
@@ -958,6 +998,10 @@ func c17Gen(r *vh.Rand) *c17Case {
 	unknown := r.Chance(22)
 	faulty := r.Chance(45)
 	oddIDs := r.Chance(10)
+	idPat := ""
+	if !oddIDs && r.Chance(12) { // an id pattern for the whole message (c17IDPattern)
+		idPat = []string{"repeated", "all-equal", "empty", "repeated+empty"}[r.Intn(4)]
+	}
 	for k := 0; k < n; k++ {
 		cl := c17Call{ID: fmt.Sprintf("c%d", k), Name: names[r.Intn(nt)], Args: fmt.Sprintf("%d|%s", k, c17Payload(r)), Fault: "none", Fid: 100 + k}
 		if unknown && r.Chance(35) {
@@ -965,6 +1009,25 @@ func c17Gen(r *vh.Rand) *c17Case {
 		}
 		if oddIDs {
 			cl.ID = []string{"", "dup", cl.ID}[r.Intn(3)]
+		}
+		switch idPat {
+		case "repeated": // an earlier call's id again
+			if k > 0 && r.Chance(50) {
+				cl.ID = c.Calls[r.Intn(k)].ID
+			}
+		case "all-equal":
+			cl.ID = "same"
+		case "empty":
+			if r.Chance(50) {
+				cl.ID = ""
+			}
+		case "repeated+empty":
+			switch p := r.Intn(3); {
+			case p == 0:
+				cl.ID = ""
+			case p == 1 && k > 0:
+				cl.ID = c.Calls[r.Intn(k)].ID
+			}
 		}
 		if faulty && r.Chance(35) {
 			cl.Fault = []string{"err", "panic"}[r.Intn(2)]
@@ -1051,6 +1114,46 @@ func c17Systematic(maxN int) []*c17Case {
 	return out
 }
 
+// c17SystematicIDs: 2-4 calls of different tools with different arguments whose ids are all
+// equal / repeat pairwise / are all empty / mix repeated and empty x Invoke / Stream x
+// standalone / graph x two completion orders.
+func c17SystematicIDs() []*c17Case {
+	var out []*c17Case
+	idOf := func(pat string, k int) string {
+		switch pat {
+		case "all-equal":
+			return "same"
+		case "repeated":
+			return fmt.Sprintf("c%d", k%2)
+		case "empty":
+			return ""
+		}
+		return []string{"", "c1", "c1", ""}[k%4] // repeated+empty
+	}
+	for n := 2; n <= 4; n++ {
+		for _, pat := range []string{"all-equal", "repeated", "empty", "repeated+empty"} {
+			for mi, mode := range []string{"invoke", "stream"} {
+				for hi, host := range []string{"standalone", "graph"} {
+					for si := 0; si < 2; si++ {
+						c := &c17Case{Assistant: true, Mode: mode, Host: host, Sched: []int{}, Pipe: (mi+hi)%2 == 0}
+						c.Tools = []c17Tool{{Name: "a", Kind: "inv", Tag: "T0"}, {Name: "b", Kind: "str", Tag: "T1"}, {Name: "c", Kind: "both", Tag: "T2"}}
+						for k := 0; k < n; k++ {
+							c.Calls = append(c.Calls, c17Call{ID: idOf(pat, k), Name: string(rune('a' + (k+si)%3)), Args: fmt.Sprintf("%d|i%d", k, k), Fault: "none", Fid: 100 + k, Cuts: []int{1}})
+							if si == 0 {
+								c.Sigma = append(c.Sigma, k)
+							} else {
+								c.Sigma = append([]int{k}, c.Sigma...)
+							}
+						}
+						out = append(out, c)
+					}
+				}
+			}
+		}
+	}
+	return out
+}
+
 func c17FaultShape(c *c17Case) string {
 	var s []string
 	for k, cl := range c.Calls {
@@ -1069,7 +1172,7 @@ func c17Key(c *c17Case) string {
 	for _, cl := range c.Calls {
 		names = append(names, cl.Name)
 	}
-	return fmt.Sprintf("%s/%s/%v/%v/%v/%s/%v/%v/%s", c.Mode, c.Host, kinds, names, c.Sigma, c17FaultShape(c), c.Handler, c.ViaOption, c17LateShape(c)+c17UtilsShape(c)+c17ReadersShape(c))
+	return fmt.Sprintf("%s/%s/%v/%v/%v/%s/%v/%v/%s", c.Mode, c.Host, kinds, names, c.Sigma, c17FaultShape(c), c.Handler, c.ViaOption, c17LateShape(c)+c17UtilsShape(c)+c17ReadersShape(c)+"/ids="+c17IDPattern(c))
 }
 
 func c17Sig(c *c17Case, what string) string {
@@ -1091,6 +1194,10 @@ func c17Sig(c *c17Case, what string) string {
 			sig += "+cancel"
 		}
 	}
+	if p := c17IDPattern(c); p != "distinct" {
+		// calls are identified by position; what the ids of the message look like matters
+		sig += ":ids=" + p
+	}
 	if c.Readers >= 2 {
 		sig += fmt.Sprintf(":readers=%d", c.Readers)
 		if c.ReadConc {
@@ -1108,9 +1215,41 @@ func c17Sig(c *c17Case, what string) string {
 }
 
 // c17SigBase is the signature without the family suffix (the shrinker may leave the family).
+// c17IDPattern: distinct | repeated | all-equal | empty | repeated+empty — how the call ids of
+// the message relate (two calls may share an id, an id may be empty; calls are told apart
+// by position everywhere in this harness).
+func c17IDPattern(c *c17Case) string {
+	seen := map[string]int{}
+	empty := false
+	for _, cl := range c.Calls {
+		if cl.ID == "" {
+			empty = true
+		} else {
+			seen[cl.ID]++
+		}
+	}
+	rep := false
+	for _, n := range seen {
+		if n > 1 {
+			rep = true
+		}
+	}
+	switch {
+	case rep && !empty && len(seen) == 1 && len(c.Calls) >= 2:
+		return "all-equal"
+	case rep && empty:
+		return "repeated+empty"
+	case rep:
+		return "repeated"
+	case empty:
+		return "empty"
+	}
+	return "distinct"
+}
+
 func c17SigBase(c *c17Case, what string) string {
 	s := c17Sig(c, what)
-	for _, suf := range []string{":late", ":readers", ":utils"} {
+	for _, suf := range []string{":ids=", ":late", ":readers", ":utils"} {
 		if i := strings.Index(s, suf); i >= 0 {
 			s = s[:i]
 		}
@@ -1189,6 +1328,9 @@ func c17Compare(ctx *vh.Ctx, c *c17Case, raw json.RawMessage) error {
 	}
 	if got.Class == "panic" {
 		ctx.Res.Dist("panic-escapes-standalone-inline-task0")
+	}
+	if len(c.Calls) > 0 {
+		ctx.Res.Dist("ids=" + c17IDPattern(c))
 	}
 	if c.Readers >= 2 || c.Host == "graphBranch" || c.Host == "graphFan" {
 		ctx.Res.Dist(fmt.Sprintf("readers/host=%s/mode=%s/copies=%d/conc=%v", c.Host, c.Mode, c.Readers, c.ReadConc))
@@ -1563,7 +1705,7 @@ func c17Batch(ctx *vh.Ctx, cs []*c17Case) error {
 }
 
 func runC17(ctx *vh.Ctx) error {
-	ctx.Res.Rule = "tool-call lists of 0-6 calls (repeated tools, unknown names, odd ids) x invokable-only / streamable-only / both tools x completion order forced by a barrier script (tool i returns only when released; releases follow the permutation) x failing / panicking subsets x with/without unknown-tool handler x Invoke / Stream x standalone / graph / graph with framework-side concatenation; systematic part: every permutation of n<=4 (thorough: n<=5) calls x 0-2 faulty positions (error/panic) x Invoke/Stream; every execution also checks that the tool saw its own call id in the context and the tool option of the call; family late: streamable tools that send only their first chunks before StreamableRun returns and the others afterwards, looking at their context before each (fail / stop / ignore on a done context), the late steps of all producers forced into a scripted order (the script starts when Stream has returned and releases each step when the previous one has been taken), the caller cancelling its context never or a given number of steps into the script (systematic: 1-3 calls x late position x str/both x hold x onDone x cancel never/0/1/2 x standalone/graph, never-cancelled also as Invoke and with framework-side concatenation); family utils: tools built by utils.Infer(Optionable)(Stream)Tool / New(Stream)Tool over a request struct / pointer / map with optional fields, JSON arguments with any subset of the fields in any order, the same tool called several times in one message with different arguments, the user's function finding its call by the call id in the context and reading its request only after the script released it, the first release only when all calls of the message are inside their tools (overlap), optionally an earlier message through the same node (systematic: 2-3 calls of one tool x uinv/ustr x val/ptr/map x Invoke/Stream x standalone/graph x with/without earlier message x identity/reversed completion); family readers: several consumers of the node's stream, each concatenating (Copy(2..4) on standalone / graph, the copies read and concatenated in turn or concurrently; graph tools -> non-stream branch condition -> non-stream node; graph tools -> two non-stream successors; run with Stream and Invoke), every consumer's list compared with the model's and every chunk compared with the deep copy made when it was received; non-trivial = at least 2 calls and the tools were run; distinct by (mode, host, tool kinds, call names, permutation, fault positions, handler, tool-list option, late calls with hold/onDone, cancellation point, request types of the utils tools, earlier message, overlap, number of readers / concurrent reading)"
+	ctx.Res.Rule = "tool-call lists of 0-6 calls (repeated tools, unknown names, odd ids) x invokable-only / streamable-only / both tools x completion order forced by a barrier script (tool i returns only when released; releases follow the permutation) x failing / panicking subsets x with/without unknown-tool handler x Invoke / Stream x standalone / graph / graph with framework-side concatenation; systematic part: every permutation of n<=4 (thorough: n<=5) calls x 0-2 faulty positions (error/panic) x Invoke/Stream; every execution also checks that the tool saw its own call id in the context and the tool option of the call; family late: streamable tools that send only their first chunks before StreamableRun returns and the others afterwards, looking at their context before each (fail / stop / ignore on a done context), the late steps of all producers forced into a scripted order (the script starts when Stream has returned and releases each step when the previous one has been taken), the caller cancelling its context never or a given number of steps into the script (systematic: 1-3 calls x late position x str/both x hold x onDone x cancel never/0/1/2 x standalone/graph, never-cancelled also as Invoke and with framework-side concatenation); family utils: tools built by utils.Infer(Optionable)(Stream)Tool / New(Stream)Tool over a request struct / pointer / map with optional fields, JSON arguments with any subset of the fields in any order, the same tool called several times in one message with different arguments, the user's function finding its call by the call id in the context and reading its request only after the script released it, the first release only when all calls of the message are inside their tools (overlap), optionally an earlier message through the same node (systematic: 2-3 calls of one tool x uinv/ustr x val/ptr/map x Invoke/Stream x standalone/graph x with/without earlier message x identity/reversed completion); id patterns: messages whose call ids are all equal / partly repeated / empty / repeated and empty (96 systematic cases, and in a fifth of the random messages), calls being told apart by position everywhere; family readers: several consumers of the node's stream, each concatenating (Copy(2..4) on standalone / graph, the copies read and concatenated in turn or concurrently; graph tools -> non-stream branch condition -> non-stream node; graph tools -> two non-stream successors; run with Stream and Invoke), every consumer's list compared with the model's and every chunk compared with the deep copy made when it was received; non-trivial = at least 2 calls and the tools were run; distinct by (mode, host, tool kinds, call names, permutation, fault positions, handler, tool-list option, late calls with hold/onDone, cancellation point, request types of the utils tools, earlier message, overlap, number of readers / concurrent reading)"
 	if ctx.Replay != nil {
 		var c c17Case
 		if err := json.Unmarshal(ctx.Replay, &c); err != nil {
@@ -1586,6 +1728,10 @@ func runC17(ctx *vh.Ctx) error {
 		if err := c17Batch(ctx, b); err != nil {
 			return err
 		}
+	}
+	// id patterns, systematic part
+	if err := c17Batch(ctx, c17SystematicIDs()); err != nil {
+		return err
 	}
 	// family `late`, systematic part (deterministic; the seed picks the start)
 	lsys := c17SystematicLate()
